@@ -1,13 +1,22 @@
 From Coq Require Import ZArith QArith Qround Qabs List Bool.
-From RV Require Export Base.PyNum Frame.Frame Map.Stacker Map.StackerSpec Map.Rate.
+From RV Require Export Base.PyNum Frame.Frame Map.Stacker Map.StackerSpec Map.Rate Map.RateFile.
 Import ListNotations.
 Open Scope Q_scope.
 
 Inductive c13case :=
 (* copy = m.rate(by): lists of the copy; lists of the original before and after (with labels);  tol = 0 on the exact stream *)
 | CRate (tol : Q) (by_ : Q) (src : list ulist) (out : list ulist) (src_before src_after : list frame)
-(* file-level time fields: (before, after) pairs that must scale by 1/by *)
-| CFields (tol : Q) (by_ : Q) (pairs : list (Q * Q))
+(* osu chart with its file-level fields: rated = osu.rate(by); the original's sample events / preview point / other
+   attributes read again after the call; frames of the original's timed lists before and after *)
+| COsu (tol : Q) (by_ : Q) (src out : osu_file) (after_samples : ulist) (after_preview : Q) (after_meta : list cell)
+       (src_before src_after : list frame)
+(* StepMania mapset with its file-level fields (SMMapSet.rate) *)
+| CSm (tol : Q) (by_ : Q) (src out : sm_file) (after_offset : option Q) (after_start after_length : Q) (after_meta : list cell)
+      (src_before src_after : list (list frame))
+(* mapsets without file-level time fields (base MapSet, O2Jam): MapSet.rate rates each chart *)
+| CSet (tol : Q) (by_ : Q) (src out : list (list ulist)) (src_before src_after : list (list frame))
+(* the strict reading of "the preview point scales": osu's marker -1 ("no preview point") stays the marker *)
+| CPreview (tol : Q) (by_ : Q) (before after : Q)
 (* two charts that must carry the same values: m.rate(1) vs m, m.rate(a).rate(b) vs m.rate(a*b) *)
 | CSame (tol : Q) (a b : list ulist).
 
@@ -57,6 +66,37 @@ Definition numeric_content (u : ulist) : bool :=
                                        || match snd cv with CNum _ => true | _ => false end)
                             (combine (u_cols u) r)) (u_rows u).
 
+(* ---- file-level comparisons ---- *)
+Definition ulist_close (tol : Q) (a b : ulist) : bool := ulists_close tol [a] [b].
+Fixpoint charts_close (tol : Q) (a b : list (list ulist)) : bool :=
+  match a, b with
+  | [], [] => true
+  | x :: a', y :: b' => ulists_close tol x y && charts_close tol a' b'
+  | _, _ => false
+  end.
+Definition oq_close (tol : Q) (a b : option Q) : bool :=
+  match a, b with None, None => true | Some x, Some y => q_close tol x y | _, _ => false end.
+Definition osu_file_close (tol : Q) (a b : osu_file) : bool :=
+  ulists_close tol (of_lists a) (of_lists b) && ulist_close tol (of_samples a) (of_samples b)
+  && q_close tol (of_preview a) (of_preview b) && row_close tol (of_meta a) (of_meta b).
+Definition sm_file_close (tol : Q) (a b : sm_file) : bool :=
+  charts_close tol (sf_charts a) (sf_charts b) && oq_close tol (sf_offset a) (sf_offset b)
+  && q_close tol (sf_sample_start a) (sf_sample_start b) && q_close tol (sf_sample_length a) (sf_sample_length b)
+  && row_close tol (sf_meta a) (sf_meta b).
+Fixpoint frames2_eqb (a b : list (list frame)) : bool :=
+  match a, b with
+  | [], [] => true
+  | x :: a', y :: b' => frames_eqb x y && frames2_eqb a' b'
+  | _, _ => false
+  end.
+(* the strict reading of the preview point, with the run's tolerance on the time *)
+Definition preview_strict_close (tol by_ before after : Q) : bool :=
+  match preview_point before, preview_point after with
+  | None, None => true
+  | Some t, Some t' => q_close tol (t / by_) t'
+  | _, _ => false
+  end.
+
 Definition check (c : c13case) : verdict :=
   match c with
   | CRate tol by_ src out sb sa =>
@@ -64,9 +104,26 @@ Definition check (c : c13case) : verdict :=
       {| corr_ok := ulists_close tol (rate_lists by_ src) out;
          spec_ok := negb wf || (ulists_close tol (rate_spec by_ src) out && frames_eqb sb sa);
          wf_ok := wf |}
-  | CFields tol by_ pairs =>
-      {| corr_ok := true;
-         spec_ok := forallb (fun p => q_close tol (fst p / by_) (snd p)) pairs;
+  | COsu tol by_ src out asamp aprev ameta sb sa =>
+      let wf := wf_osu_file src && forallb numeric_content (of_samples src :: of_lists src) && Qlt_bool 0 by_ in
+      {| corr_ok := osu_file_close tol (osu_rate by_ src) out;
+         spec_ok := negb wf || (osu_file_close tol (osu_file_scaled by_ src) out
+                                && osu_file_eqb (mkOsuFile (of_lists src) asamp aprev ameta) src && frames_eqb sb sa);
+         wf_ok := wf |}
+  | CSm tol by_ src out aoff astart alen ameta sb sa =>
+      let wf := wf_sm_file src && forallb (forallb numeric_content) (sf_charts src) && Qlt_bool 0 by_ in
+      {| corr_ok := sm_file_close tol (sm_mapset_rate by_ src) out;
+         spec_ok := negb wf || (sm_file_close tol (sm_file_scaled by_ src) out
+                                && sm_file_eqb (mkSmFile (sf_charts src) aoff astart alen ameta) src && frames2_eqb sb sa);
+         wf_ok := wf |}
+  | CSet tol by_ src out sb sa =>
+      let wf := forallb (forallb wf_ulist) src && forallb (forallb numeric_content) src && Qlt_bool 0 by_ in
+      {| corr_ok := charts_close tol (mapset_rate by_ src) out;
+         spec_ok := negb wf || (charts_close tol (map (rate_spec by_) src) out && frames2_eqb sb sa);
+         wf_ok := wf |}
+  | CPreview tol by_ before after =>
+      {| corr_ok := q_close tol (py_div before by_) after;
+         spec_ok := preview_strict_close tol by_ before after;
          wf_ok := Qlt_bool 0 by_ |}
   | CSame tol a b =>
       {| corr_ok := true; spec_ok := ulists_close tol a b; wf_ok := true |}
